@@ -30,7 +30,7 @@ class Skip(Exception):
 class Law(object):
     def __init__(self, name, check, strategy=None, enumerate=None, nontrivial=None, key=None,
                  classes=None, required=(), quick=1000, thorough=20000,
-                 shards=(4, 16), rule='', exhaustive=False, shrink=True, setup=None, weight=None):
+                 shards=(4, 16), rule='', exhaustive=False, shrink=True, setup=None, weight=None, nt_weight=None):
         assert (strategy is None) != (enumerate is None)
         self.name = name
         self.check = check
@@ -48,6 +48,7 @@ class Law(object):
         self.shrink = shrink
         self.setup = setup
         self.weight = weight or (lambda case: 1)
+        self.nt_weight = nt_weight or self.weight
 
     def budget(self, tier):
         return self.quick if tier == 'quick' else self.thorough
